@@ -743,7 +743,7 @@ func prepare(a *adapter, seed int64, res *vh.Result) *protoState {
 var quota = map[string]map[string]int{
 	"quick": {"session": 90, "gennaro": 80, "hjky": 60, "redistribute": 90, "redistribute-recover": 30, "lindell22": 100, "boldyreva": 34, "boldyreva-3": 4, "dkls23": 2, "aor": 40,
 		"canetti": 60, "dkls23-softspoken": 2, "lindell17": 3, "cggmp21": 0},
-	"thorough": {"session": 3000, "gennaro": 1500, "hjky": 800, "redistribute": 1500, "redistribute-recover": 600, "lindell22": 1500, "boldyreva": 200, "boldyreva-3": 100, "dkls23": 45, "aor": 600, "lindell17dkg": 12,
+	"thorough": {"session": 3000, "gennaro": 1500, "hjky": 800, "redistribute": 1500, "redistribute-recover": 600, "lindell22": 1500, "boldyreva": 200, "boldyreva-3": 100, "dkls23": 45, "aor": 600, "lindell17dkg": 24,
 		"canetti": 1000, "dkls23-softspoken": 40, "lindell17": 60, "cggmp21": 40},
 }
 
@@ -1073,6 +1073,11 @@ func main() {
 					if f == m.field {
 						rank = fmt.Sprintf("!%02d", i)
 					}
+				}
+			}
+			if ad.rank != nil {
+				if r := ad.rank(m); r != "" {
+					rank = r
 				}
 			}
 			s := fmt.Sprintf("%s|%d/%s/%s/%s/%s", rank, m.key.round, bcastText(m.key), stratumPath(m.path), m.kind, m.op.Kind)
